@@ -68,7 +68,7 @@ def _post_ffp(c, a, kw, r):
 
 def _mk_pff(c):
     _ax(c)
-    f, F = mat('ifrequency', N, 1)
+    f, F = mat('ifrequency', N, 2)           # a [samples x imfs] profile: every column accumulates on its own
     c.ghost['F'] = F
     return (f, SReal(SR)), dict(phase_start=SReal(P0))
 
@@ -76,8 +76,12 @@ def _mk_pff(c):
 def _post_pff(c, a, kw, r):
     F = c.ghost['F']
     i = z3.Int('pi')
-    acc = SUMR(npshim.reify1(lambda t: F(t, 0) / SR * (2 * PI), 'f'), i + 1)
-    c.oblige('post:phase-is-start-plus-running-sum', z3.Implies(z3.And(0 <= i, i < N), r.elem(i, z3.IntVal(0)) == P0 + acc), 'post')
+    c.oblige('post:phase-has-the-shape-of-the-profile', z3.And(z3.BoolVal(r.ndim == 2), r.shape_e[0] == N, r.shape_e[1] == 2) if r.ndim == 2 else z3.BoolVal(False), 'post')
+    if r.ndim != 2:
+        return
+    for j in (0, 1):
+        acc = SUMR(npshim.reify1(lambda t, j=j: F(t, j) / SR * (2 * PI), 'f'), i + 1)
+        c.oblige('post:phase-is-start-plus-running-sum-of-its-own-column', z3.Implies(z3.And(0 <= i, i < N), r.elem(i, z3.IntVal(j)) == P0 + acc), 'post')
 
 
 def _mk_rt(const):
@@ -190,6 +194,106 @@ def _post_ft(c, a, kw, r):
     c.oblige('post:phase-is-the-wrap-of-the-same-unwrapped-phase', z3.Implies(rng, z3.And(ip.elem(i, j) >= 0, ip.elem(i, j) < 2 * PI,
                                                                                      z3.Exists([q], ip.elem(i, j) == UNW(i, j) - z3.ToReal(q) * (2 * PI)))), 'post')
     c.oblige('post:amplitude-is-modulus-of-the-analytic-signal', z3.Implies(rng, ia.elem(i, j) == HAMP(i, j)), 'post')
+
+
+# ----------------------------------------------------------------------------- frequency_transform, nht and quad branches
+#
+# The analytic signal is taken from the right array (nht: the amplitude-NORMALISED IMFs, quad: the quadrature transform of the IMFs), the
+# same unwrapped phase feeds phase and frequency as in the hilbert branch, and the amplitude of column j is the UPPER envelope of column j
+# of the original IMFs.   amplitude_normalise, quadrature_transform, interp_envelope, signal.hilbert and phase_from_complex_signal are
+# contract stubs (amplitude_normalise has its own unit above).
+ENVUP = z3.Function('ENV_UPPER', I, I, R)      # upper envelope of column j at sample i (function of the input, assumed: C05)
+NORMED = z3.Function('NORMALISED', I, I, R)
+
+
+def _mk_ft2(method):
+    def mk(c):
+        _ax(c)
+        x, X = mat('imf', N, 2)
+        c.ghost['imf'] = x
+        c.ghost['IMF'] = X
+        return (x, SReal(SR), method), {}
+    return mk
+
+
+def _call_ft2(f, c, a, kw):
+    g = f.__globals__
+    imf0 = c.ghost['imf']
+    X = c.ghost['IMF']
+    c.ghost['src'] = None
+    c.ghost['env_calls'] = []
+
+    def is_col_of_input(v, j):
+        t = z3.Int('ect')
+        return z3.ForAll([t], z3.Implies(z3.And(0 <= t, t < N), v.elem(t) == X(t, j)))
+
+    class Sig:
+        @staticmethod
+        def hilbert(x, axis=0):
+            core.C().oblige('hilbert-along-time-axis', z3.BoolVal(axis == 0), 'post')
+            r = CArr(x)
+            r.tag = 'hilbert-of-normalised' if getattr(x, 'tag', None) == 'normalised' else 'hilbert-of-something-else'
+            return r
+
+    def quadrature_transform(x):
+        c2 = core.C()
+        c2.oblige('quadrature_transform:applied-to-the-input-imfs', z3.BoolVal(x is imf0 or getattr(x, 'buf', None) == imf0.buf), 'post')
+        r = CArr(x)
+        r.tag = 'quadrature-of-input'
+        return r
+
+    def pfcs(sig, smoothing=None, ret_phase='wrapped', phase_jump='ascending'):
+        c2 = core.C()
+        c2.oblige('phase_from_complex_signal:unwrapped-phase-requested-for-the-frequency', z3.BoolVal(ret_phase == 'unwrapped' and isinstance(sig, CArr)), 'post')
+        c2.ghost['src'] = getattr(sig, 'tag', None)
+        return SArr(sig.src.shape_e, lambda i, j: UNW(i, j), 'f')
+
+    class Utils:
+        wrap_phase = staticmethod(g['wrap_phase'])
+
+        @staticmethod
+        def amplitude_normalise(x, **kw2):
+            c2 = core.C()
+            c2.oblige('amplitude_normalise:applied-to-the-input-imfs-with-default-options', z3.BoolVal((x is imf0 or getattr(x, 'buf', None) == imf0.buf) and not kw2), 'post')
+            r = SArr(x.shape_e, lambda i, j: NORMED(i, j), 'f')
+            r.tag = 'normalised'
+            return r
+
+        @staticmethod
+        def interp_envelope(v, mode='upper', **kw2):
+            c2 = core.C()
+            j = len(c2.ghost['env_calls'])
+            c2.ghost['env_calls'].append(mode)
+            c2.oblige('interp_envelope:upper-envelope-with-default-options', z3.BoolVal(mode == 'upper' and not kw2 and v.ndim == 1), 'post')
+            if v.ndim == 1:
+                c2.oblige('interp_envelope:column-%d-of-the-ORIGINAL-imfs' % j, is_col_of_input(v, z3.IntVal(j)), 'post')
+            # unit precondition: every column is an IMF with an upper envelope (a column without one gives a NaN amplitude column)
+            return SArr((N,), lambda t, j=j: ENVUP(t, z3.IntVal(j)), 'f')
+    g['signal'] = Sig
+    g['phase_from_complex_signal'] = pfcs
+    g['quadrature_transform'] = quadrature_transform
+    g['utils'] = Utils
+    return f(*a, **kw)
+
+
+def _post_ft2(method):
+    def post(c, a, kw, r):
+        ip, ifr, ia = r
+        i, j = z3.Ints('pi pj')
+        q = z3.Int('wit_q')
+        rng = z3.And(0 <= i, i < N, 0 <= j, j < 2)
+        for nm, arr in (('phase', ip), ('frequency', ifr), ('amplitude', ia)):
+            c.oblige('post:%s-has-the-shape-of-the-input' % nm, z3.And(z3.BoolVal(arr.ndim == 2), arr.shape_e[0] == N, arr.shape_e[1] == 2) if arr.ndim == 2 else z3.BoolVal(False), 'post')
+        k = SR / (2 * PI)
+        want = {'nht': 'hilbert-of-normalised', 'quad': 'quadrature-of-input'}[method]
+        c.oblige('post:phase-comes-from-the-%s' % want, z3.BoolVal(c.ghost.get('src') == want), 'post')
+        c.oblige('post:frequency-is-scaled-derivative-of-the-unwrapped-phase', z3.Implies(z3.And(rng, 1 <= i, i <= N - 2), ifr.elem(i, j) == (UNW(i + 1, j) - UNW(i - 1, j)) / 2 * k), 'post')
+        c.oblige('post:phase-is-the-wrap-of-the-same-unwrapped-phase', z3.Implies(rng, z3.And(ip.elem(i, j) >= 0, ip.elem(i, j) < 2 * PI,
+                                                                                         z3.Exists([q], ip.elem(i, j) == UNW(i, j) - z3.ToReal(q) * (2 * PI)))), 'post')
+        if ia.ndim == 2:
+            c.oblige('post:amplitude-of-column-j-is-the-upper-envelope-of-column-j', z3.Implies(rng, ia.elem(i, j) == ENVUP(i, j)), 'post')
+        c.oblige('post:one-envelope-per-column', z3.BoolVal(len(c.ghost['env_calls']) == 2), 'post')
+    return post
 
 
 # ----------------------------------------------------------------------------- amplitude_normalise: per-column iteration
@@ -326,6 +430,9 @@ def units(tier):
     U.append(Unit('wrap_phase', 'emd/utils.py', 'wrap_phase', _mk_wrap, _post_wrap, module=EU))
     U.append(Unit('frequency_transform[hilbert]', SP, 'frequency_transform', _mk_ft, _post_ft, module=ES,
                   inline=[('emd/support.py', 'ensure_2d', {}), (SP, 'freq_from_phase', {}), ('emd/utils.py', 'wrap_phase', {})], wrap_call=_call_ft))
+    for method in ('nht', 'quad'):
+        U.append(Unit('frequency_transform[%s]' % method, SP, 'frequency_transform', _mk_ft2(method), _post_ft2(method), module=ES,
+                      inline=[('emd/support.py', 'ensure_2d', {}), (SP, 'freq_from_phase', {}), ('emd/utils.py', 'wrap_phase', {})], wrap_call=_call_ft2))
     U.append(an_unit())
     return U
 
@@ -435,11 +542,15 @@ def replay(w):
             sr = w['sr']
             f = np.array(w['f'], float)
             ph = SPm.phase_from_freq(f, sr)
+            if np.shape(ph) != f.shape:
+                return True, 'phase_from_freq changed the shape of the profile: %s -> %s' % (f.shape, np.shape(ph))
             g = SPm.freq_from_phase(ph, sr)
+            if np.shape(g) != f.shape:
+                return True, 'freq_from_phase changed the shape: %s -> %s' % (f.shape, np.shape(g))
             exp = (f[1:-1] + f[2:]) / 2
             if not np.allclose(g[1:-1], exp, rtol=1e-9, atol=1e-9):
                 return True, 'freq -> phase -> freq is not the two-sample average (max diff %.3g)' % np.abs(g[1:-1] - exp).max()
-            if np.all(f == f[0]) and not np.allclose(g, f, rtol=1e-10, atol=1e-10):
+            if np.all(f == f[:1]) and not np.allclose(g, f, rtol=1e-10, atol=1e-10):
                 return True, 'constant frequency profile not reproduced exactly'
             return False, 'ok'
         if kind == 'normalise':
@@ -510,11 +621,13 @@ def refute(tier, seed, emit):
         emit.violation('wrap-phase-range-and-congruence', {'kind': 'scale', 'method': 'hilbert', 'sr': 256, 'c': 1.0}, 'wrap_phase(%s) = %s' % (vals.tolist(), wv.tolist()))
     r = rng(seed, 9)
     nrt = 20 if tier == 'quick' else 200
-    emit.scope('%d smooth random frequency profiles + constant profiles: freq -> phase -> freq' % nrt)
+    emit.scope('%d smooth random frequency profiles + constant profiles, a quarter of them with 2-3 columns: freq -> phase -> freq (shape kept, columns independent)' % nrt)
     for k in range(nrt):
         n = int(r.randint(20, 400))
         f = np.full(n, 7.5) if k % 5 == 0 else 10 + 3 * np.sin(np.linspace(0, r.uniform(1, 9), n)) + np.cumsum(r.randn(n)) * 0.01
         emit.case(('rt', k), contract='phase_from_freq')
+        if k % 4 == 1:        # a [samples x imfs] profile: the columns must not mix
+            f = np.c_[f, 2 * f[::-1], np.full(n, 3.0)][:, :2 + k % 2]
         w = {'kind': 'roundtrip', 'sr': float(r.choice([128, 512, 1000])), 'f': f.tolist()}
         ok, msg = replay(w)
         if ok:
